@@ -18,7 +18,7 @@ LEVEL_TEXT = ("Bounded verification by symbolic execution of the real assembly c
 LEVEL_NOTE = ("Bounds: 1-2 modules + vector, 12-nt records with fixed fragment spans, <=2 references per record, <=2 cited features "
               "per record, <=2 citations per feature; citation indices are valid (1..len(references)). Malformed citation strings "
               "are outside the domain. Trusted: z3, CPython, symx models of Bio.SeqRecord/SeqFeature.")
-LEVEL_NOTE_EXTRA = "per-record 'Direct Submission' references (same title, other authors) and reference lists of 12 (quick) / 21 / 101 entries with symbolic two-digit indices."
+LEVEL_NOTE_EXTRA = "per-record 'Direct Submission' references (same title, other authors) and reference lists of 12 (quick) / 21 / 101 entries with symbolic two-digit indices. Also: all records under one identifier; references carrying the span of their source record (5/12/300 bases)."
 TECHNIQUE = "bounded symbolic execution of the real Python source (symx) with z3 over symbolic citation indices, reference sharing and feature placement; replay on the real stack"
 EXPLANATION = ("the citation dereference / re-reference code runs on records whose citation indices, reference identities and "
                "feature positions are symbolic; every path's product and inputs are compared with the specification")
